@@ -29,6 +29,7 @@ class World:
         self.df = None
         self.scale = {}  # numeric column -> factor by which its abstract (integer) cells are scaled
         self.sum_cols = {}  # sum-coded derived factor -> code of its omitted (last) level
+        self.namespace = {}  # names the formulas take from the caller (explicit levels)
 
 
 def gen_world(rng, nmin=3, nmax=20, na_rate=0.0, na_cols=(), ordered_prob=0.5, force_levels=True, distinct=0, quarters=False):
@@ -99,6 +100,10 @@ def gen_world(rng, nmin=3, nmax=20, na_rate=0.0, na_cols=(), ordered_prob=0.5, f
     ks = sorted(set(kv))
     w.cols["C(k)"] = {"kind": "cat", "v": [ks.index(v) + 1 for v in kv], "decl": []}
     w.names["C(k)"] = [str(v) for v in ks]
+    # explicit level order taken from the caller's namespace (KL = the values of k, descending)
+    w.cols["C(k, levels=KL)"] = {"kind": "cat", "v": [ks.index(v) + 1 for v in kv], "decl": list(range(len(ks), 0, -1))}
+    w.names["C(k, levels=KL)"] = [str(v) for v in ks]
+    w.namespace = {"KL": sorted(ks, reverse=True)}
     # a call that returns plain strings (not a CategoricalBox): levels must still be sorted
     w.cols["I(h)"] = {"kind": "cat", "v": list(w.cols["h"]["v"]), "decl": []}
     w.names["I(h)"] = list(w.names["h"])
@@ -131,7 +136,7 @@ def gen_world(rng, nmin=3, nmax=20, na_rate=0.0, na_cols=(), ordered_prob=0.5, f
     return w
 
 
-DERIVED = {"C(k)": ["k"], "I(h)": ["h"], "S(h)": ["h"], "C(g, Sum)": ["g"], "I(x * 2)": ["x"], "np.abs(x)": ["x"], "I(z + w)": ["z", "w"]}
+DERIVED = {"C(k)": ["k"], "C(k, levels=KL)": ["k"], "I(h)": ["h"], "S(h)": ["h"], "C(g, Sum)": ["g"], "I(x * 2)": ["x"], "np.abs(x)": ["x"], "I(z + w)": ["z", "w"]}
 
 
 def _set_na(w, df, c, r):
@@ -155,8 +160,8 @@ def _set_na(w, df, c, r):
             w.cols[dname]["v"][r] = 0 if w.cols[dname]["kind"] == "cat" else NA
 
 
-CAT_COMPS = ["f", "g", "h", "o", "C(k)", "I(h)", "S(h)", "C(g, Sum)"]
-SAME_FACTOR = [{"h", "I(h)", "S(h)"}, {"g", "C(g, Sum)"}]
+CAT_COMPS = ["f", "g", "h", "o", "C(k)", "I(h)", "S(h)", "C(g, Sum)", "C(k, levels=KL)"]
+SAME_FACTOR = [{"h", "I(h)", "S(h)"}, {"g", "C(g, Sum)"}, {"C(k)", "C(k, levels=KL)"}]
 NUM_COMPS = ["x", "z", "I(x * 2)", "np.abs(x)", "I(z + w)"]
 
 
@@ -390,6 +395,8 @@ def matrix_event(mat, w, kind):
 
 def record_build(idx, text, used, w, policy="drop", **kw):
     """Run design_matrices and return the build event (or an event with status = exception)."""
+    if "extra_namespace" not in kw and getattr(w, "namespace", None):
+        kw["extra_namespace"] = dict(w.namespace)
     st, dm = design.build(text, w.df, na_action=policy, **kw)
     ev = {
         "id": idx,
